@@ -405,7 +405,7 @@ func CheckOp(c *Ctx, req mon.OpReq, exp Expect, viaModel bool, mo mon.ModelOpts,
 	if viaModel && c.Idx%16 == 0 && exp.Kind == MustEqual && len(exp.Want) > 0 && exp.Want[0] != nil {
 		// the node between two other nodes: its data operand and its first result are
 		// intermediate values of the graph (neither caller tensors, weights nor outputs)
-		if g, feed, made := sandwichModel(req, mo, exp.Want[0].T); made {
+		if g, feed, made := sandwichModel(req, mo, exp.Want[0].T, c.Idx%32 == 16); made {
 			for n := 1; n <= 2 && ok; n++ {
 				osw := mon.RunGraph(g, feed)
 				c.Eval(1)
@@ -575,9 +575,26 @@ func hasAbsentInput(r mon.OpReq) bool {
 // shape) -> the node under test -> Reshape(result 0, its own shape). The two Reshape
 // nodes change no value; they make the data operand and the first result of the node
 // intermediate values of the graph.
-func sandwichModel(req mon.OpReq, mo mon.ModelOpts, want0 *ref.T) (*mon.Graph, map[string]*ref.T, bool) {
+func sandwichModel(req mon.OpReq, mo mon.ModelOpts, want0 *ref.T, viaTranspose bool) (*mon.Graph, map[string]*ref.T, bool) {
 	if len(req.Inputs) == 0 || req.Inputs[0] == nil || req.Inputs[0].DT == ref.Str || want0.DT == ref.Str || len(req.Inputs[0].Bits) == 0 || len(want0.Bits) == 0 {
 		return nil, nil, false
+	}
+	// viaTranspose: the node in front is a Transpose (default perm) of the operand stored transposed,
+	// so the operand the node reads is the result of a transposition (same elements, same order)
+	viaTranspose = viaTranspose && len(req.Inputs[0].Shape) >= 2
+	if viaTranspose {
+		if tr, err := ref.Transpose(req.Inputs[0], nil); err == nil {
+			orig := req.Inputs[0]
+			ins := append([]*ref.T{}, req.Inputs...)
+			for i := range ins {
+				if ins[i] == orig {
+					ins[i] = tr
+				}
+			}
+			req.Inputs = ins
+		} else {
+			viaTranspose = false
+		}
 	}
 	g, feed := mon.BuildOpModel(req, mo)
 	if len(g.Nodes) != 1 || len(g.Nodes[0].Inputs) == 0 || g.Nodes[0].Inputs[0] != "i0" || len(g.Nodes[0].Outputs) == 0 || g.Nodes[0].Outputs[0] == "" || len(g.Outputs) == 0 {
@@ -601,8 +618,16 @@ func sandwichModel(req mon.OpReq, mo mon.ModelOpts, want0 *ref.T) (*mon.Graph, m
 	}
 	node.Outputs[0] = "sw_result"
 	g.Inits = append(g.Inits, mon.GInit{Name: "sw_shape_in", T: shapeOf(req.Inputs[0])}, mon.GInit{Name: "sw_shape_out", T: shapeOf(want0)})
+	before := mon.GNode{Op: "Reshape", Name: "before", Inputs: []string{"i0", "sw_shape_in"}, Outputs: []string{"sw_operand"}}
+	if viaTranspose {
+		perm := make([]int64, len(req.Inputs[0].Shape))
+		for i := range perm {
+			perm[i] = int64(len(perm) - 1 - i)
+		}
+		before = mon.GNode{Op: "Transpose", Name: "before", Inputs: []string{"i0"}, Outputs: []string{"sw_operand"}, Attrs: []*mon.Attr{mon.AttrInts("perm", perm)}}
+	}
 	g.Nodes = []mon.GNode{
-		{Op: "Reshape", Name: "before", Inputs: []string{"i0", "sw_shape_in"}, Outputs: []string{"sw_operand"}},
+		before,
 		node,
 		{Op: "Reshape", Name: "after", Inputs: []string{"sw_result", "sw_shape_out"}, Outputs: []string{first}},
 	}
